@@ -392,14 +392,17 @@ def run(ctx):
     if not load.ALIAS:
         from . import controls
         controls.run(ctx, ('F-PUT',))
+    fwd = '<&mut W as minicbor::encode::write::Write>::write_all'
+    funnels = sorted(c for c in callers if c.startswith(l1.ENC) and '::{' not in c)
+    funnel = funnels[0] if len(funnels) == 1 else None      # the single inherent method of Encoder that writes to the sink (today `put`)
     for c in sorted(callers):
-        if c in (l1.ENC + 'put', '<&mut W as minicbor::encode::write::Write>::write_all'):
+        if c == fwd or c == funnel:
             ctx.ok('F-PUT', c)
         else:
-            ctx.violation('F-PUT', c, 'writes to the sink without going through Encoder::put')
-    put = prog.one(l1.ENC + 'put')
-    if put is None or l1.ENC + 'put' not in callers:
-        ctx.fail_closed('F-PUT', 'Encoder::put is not the caller of Write::write_all any more')
+            ctx.violation('F-PUT', c, 'writes to the sink without going through the single write funnel of Encoder (%s)' % (', '.join(funnels) or 'none found'))
+    put = prog.one(funnel) if funnel else None
+    if put is None:
+        ctx.fail_closed('F-PUT', 'Encoder has no single method calling Write::write_all any more (%r)' % (funnels,))
     else:
         fns = [(f.get('rpath') or f.get('path')) for f, sp in mir.fn_consts_in_body(put['body'])]
         fns += [mir.callee_path(t_) for _, t_ in mir.iter_calls(put['body']) if mir.callee_path(t_)]     # `Err(e) => Err(Error::write(e))` is as good as `map_err(Error::write)`
@@ -426,7 +429,7 @@ def run(ctx):
                 for pj in pl.get('p') or []:
                     if pj['k'] == 'field' and pj.get('adt') == 'minicbor::encode::encoder::Encoder' and pj.get('n') == 'writer':
                         users.add(inst['path'])
-    okusers = {l1.ENC + x for x in ('put', 'new', 'writer', 'writer_mut', 'into_writer')} | {'<minicbor::encode::encoder::Encoder<W> as std::fmt::Debug>::fmt', '<minicbor::encode::encoder::Encoder<W> as std::clone::Clone>::clone'}
+    okusers = {l1.ENC + x for x in ('new', 'writer', 'writer_mut', 'into_writer')} | ({funnel} if funnel else set()) | {'<minicbor::encode::encoder::Encoder<W> as std::fmt::Debug>::fmt', '<minicbor::encode::encoder::Encoder<W> as std::clone::Clone>::clone'}
     for u in sorted(users):
         if u in okusers:
             ctx.ok('F-PUT.field', u, nontrivial=False)
